@@ -1358,7 +1358,7 @@ lyds_unlink(struct lyd_node **leader, struct lyd_node *node)
 void
 lyds_split(struct lyd_node **first_sibling, struct lyd_node *leader, struct lyd_node *node, struct lyd_node **next_p)
 {
-    struct rb_node *rbt, *rbn;
+    struct rb_node *rbt, *rbn = NULL;
     struct lyd_node *iter, *next, *start, *dst;
     struct lyd_meta *root_meta;
 
